@@ -257,6 +257,7 @@ def _formats(B, gs, ps, rng):
     for k, (g, p) in enumerate(zip(gs, ps)):
         mixed.append([strs[k], np.array(codes[k]), B.Pauli(g.copy(), int(p))][k % 3])
     out.append(("mixed", (mixed,)))
+    out.append(("generator", ((x for x in list(strs)),)))
     return out
 
 
